@@ -46,10 +46,12 @@ class Builder:
     def decorate(self, f, spec):
         from connectome import impure, optional, meta, inverse
         from connectome.interface.complex_edges import hash_by_value
-        if spec.get('byvalue'):
+        if spec.get('byvalue') and not spec.get('byvalue_outer'):
             f = hash_by_value(f)
         if spec.get('impure'):
             f = impure(f)
+        if spec.get('byvalue') and spec.get('byvalue_outer'):
+            f = hash_by_value(f)      # @hash_by_value @impure def f
         if spec.get('inv'):
             f = inverse(f)
         if spec.get('opt'):
